@@ -354,6 +354,14 @@ func (w *World) PrivMsg(variant int, authority string, op Op) sdk.Msg {
 		}
 		return &oracletypes.MsgUpdateCyclelist{Authority: authority, Cyclelist: list}
 	case 3:
+		if op.S == "trbbridge-window" {
+			// shorten the report window of tipped bridge-deposit rounds (rounds opened by a direct report keep the
+			// hard-coded 2000 blocks): the stored spec with only ReportBlockWindow changed
+			if spec, err := w.C.App.RegistryKeeper.GetSpec(w.C.Ctx(), "trbbridge"); err == nil {
+				spec.ReportBlockWindow = uint64(mod(op.R[1], 3))
+				return &registrytypes.MsgUpdateDataSpec{Authority: authority, QueryType: "TRBBridge", Spec: spec}
+			}
+		}
 		spec := registrytypes.GenesisDataSpec()
 		spec.ReportBlockWindow = uint64(mod(op.R[1], 5))
 		qt := []string{"SpotPrice", "spotprice", "verifmed", "verifmode"}[mod(op.R[2], 4)]
